@@ -305,3 +305,65 @@ func init() {
 		fmt.Println("REPLAY: not-reproduced")
 	}
 }
+
+// recAppender records what reaches an appender.
+type recAppender struct {
+	AppenderBase
+	events int
+	levels []Level
+	raws   []string
+}
+
+func (r *recAppender) Start() error { return nil }
+func (r *recAppender) Stop()        {}
+func (r *recAppender) Append(e *Event) {
+	r.events++
+	r.levels = append(r.levels, e.Level)
+}
+func (r *recAppender) Write(b []byte) { r.raws = append(r.raws, string(b)) }
+
+func init() {
+	replayers["(*SyncLogger).Write"] = func(in map[string]any) {
+		for _, ranges := range [][]LevelRange{
+			{{NoneLevel, MaxLevel}},
+			{{InfoLevel, WarnLevel}, {WarnLevel, MaxLevel}},
+			{{NoneLevel, NoneLevel}},
+		} {
+			var apps []*recAppender
+			l := &SyncLogger{LoggerBase: LoggerBase{Level: LevelRange{NoneLevel, MaxLevel}}}
+			for _, r := range ranges {
+				a := &recAppender{}
+				apps = append(apps, a)
+				l.AppenderRefs.AppenderRefs = append(l.AppenderRefs.AppenderRefs, &AppenderRef{Appender: a, Level: r})
+			}
+			l.Write([]byte("raw line\n"))
+			for i, a := range apps {
+				if len(a.raws) != 1 || a.raws[0] != "raw line\n" {
+					fmt.Printf("REPLAY: confirmed SyncLogger.Write with ref ranges %v: appender %d received %q, want exactly one copy of the bytes\n", ranges, i, a.raws)
+					return
+				}
+			}
+		}
+		fmt.Println("REPLAY: not-reproduced")
+	}
+	replayers["(*LoggerWrapper).Write"] = func(in map[string]any) {
+		w := &LoggerWrapper{name: "replay"}
+		var out bytes.Buffer
+		save := Stdout
+		Stdout = &out
+		defer func() { Stdout = save }()
+		n, err := w.Write([]byte("before refresh\n")) // panics when the nil logger is dereferenced
+		if n != len("before refresh\n") || err != nil {
+			fmt.Printf("REPLAY: confirmed LoggerWrapper.Write returned (%d, %v)\n", n, err)
+			return
+		}
+		cl := &captureLogger{}
+		w.logger = cl
+		w.Write([]byte("x"))
+		if len(cl.raws) != 1 || string(cl.raws[0]) != "x" {
+			fmt.Printf("REPLAY: confirmed LoggerWrapper.Write forwarded %q\n", cl.raws)
+			return
+		}
+		fmt.Println("REPLAY: not-reproduced")
+	}
+}
